@@ -1,6 +1,7 @@
 package main
 
 import (
+	"cmp"
 	"fmt"
 	"strconv"
 
@@ -106,8 +107,16 @@ func (in *Interp) itoaSym(x *Term) Value {
 	return s
 }
 
-// internal/bytealg.CompareString (assembly; reached from strings.Compare and cmp-style comparators): same model as
-// the []byte variant bytealg.Compare in intercepts.go - decide equality, then lexicographic order.
+// Three-way comparisons as *terms* (no forking): ite(a<b, -1, ite(b<a, 1, 0)).
+//   - internal/bytealg.CompareString (assembly; reached from strings.Compare) - without it the path aborts;
+//   - cmp.Compare[T] for integer and string T: the real body branches twice per call, and comparators written as
+//     cmp.Or(cmp.Compare(..), cmp.Compare(..), ...) evaluate every operand eagerly, i.e. 3^k paths for k fields where
+//     an if-chain has 2k+1. As a term the caller forks only where it inspects the result.
+// Floats (concrete in this engine) are compared natively with cmp.Compare's NaN ordering.
+func threeWay(lt, gt *Term) *Term {
+	return Ite(lt, C(64, ^uint64(0)), Ite(gt, C(64, 1), C(64, 0)))
+}
+
 func init() {
 	reg("internal/bytealg.CompareString", func(in *Interp, fn *ssa.Function, args []Value) Value {
 		a, ok1 := args[0].(Str)
@@ -115,12 +124,29 @@ func init() {
 		if !ok1 || !ok2 {
 			in.abort("bytealg.CompareString: strings expected, have %T, %T", args[0], args[1])
 		}
-		if in.decide(in.strEq(a, b)) {
-			return CI(0)
+		return threeWay(in.strLess(a, b), in.strLess(b, a))
+	})
+	reg("cmp.Compare", func(in *Interp, fn *ssa.Function, args []Value) Value {
+		switch a := args[0].(type) {
+		case Str:
+			b := args[1].(Str)
+			return threeWay(in.strLess(a, b), in.strLess(b, a))
+		case *Term:
+			b, ok := args[1].(*Term)
+			if !ok || a.w == 0 {
+				in.abort("cmp.Compare: unsupported operands %T, %T", args[0], args[1])
+			}
+			_, signed := width(fn.Signature.Params().At(0).Type())
+			op := "bvult"
+			if signed {
+				op = "bvslt"
+			}
+			return threeWay(Bin(op, a, b), Bin(op, b, a))
+		case Float:
+			b := args[1].(Float)
+			return CI(cmp.Compare(a.f, b.f))
 		}
-		if in.decide(in.strLess(a, b)) {
-			return CI(-1)
-		}
-		return CI(1)
+		in.abort("cmp.Compare on %T", args[0])
+		return nil
 	})
 }
